@@ -2,8 +2,9 @@
     order — the store returns rows [ORDER BY transfer_id]), and one account never holds more than
     one non-terminal migration. *)
 From V.Lib Require Import Base.
+From V.Gen Require Import C18Store.
 From V.C18 Require Import Model Store.
-From Coq Require Import Sorted ZifyBool.
+From Coq Require Import Sorted ZifyBool String.
 Local Open Scope Z_scope.
 
 (* ---------------------------------------------------------------------------------------- *)
@@ -223,3 +224,20 @@ Proof.
     destruct (replace_spec (fold_left replace_migration l st0) s A) as [B [C D]]. tauto. }
   destruct (G ss [] I) as [A B]. split; [exact A|]. split; [apply history_live_count; exact A | exact B].
 Qed.
+
+(* ---------------------------------------------------------------------------------------- *)
+(** The columns of the real tables (regenerated from the SQL in store.rs on every run) are the
+    fields of the row model, plus the key and the two opaque payload columns it omits. *)
+Definition modelled_tx_columns : list String.string :=
+  ["transfer_id"; "kind"; "kind_layer"; "kind_index"; "kind_crossing"; "scheduled_height"; "expiry_height";
+   "anchor_boundary"; "state"; "txid"; "mined_height"; "unsatisfiable_at"; "unsatisfiable_kind";
+   "broadcast_failure_at"]%string.
+Definition omitted_tx_columns : list String.string := ["migration_id"; "pczt"; "lock_owner"]%string.
+
+Lemma tx_columns_are_modelled :
+  filter (fun c => negb (existsb (String.eqb c) omitted_tx_columns)) TX_COLUMNS = modelled_tx_columns.
+Proof. vm_compute. reflexivity. Qed.
+
+Lemma dep_columns_are_modelled :
+  DEP_COLUMNS = ["migration_id"; "transfer_id"; "ordinal"; "depends_on_transfer_id"]%string.
+Proof. vm_compute. reflexivity. Qed.
